@@ -29,7 +29,9 @@ CHECK_DEADLOCK FALSE
 
 REG = ["root/a.c", "root/b.h", "root/notes.txt", "root/noext", "root/a b.c", "root/[x].c", "root/a*.c", "root/.hidden.c",
        "root/d1/a.c", "root/d1/ab.c", "root/d1/d2/a.c", "root/d1/d2/deep.h", "root/build/gen.c", "root/a/a.c",
-       "root/src.c/in.c", "root/d1/Makefile", "root/.c", "root/d1/.h", "root2/x.c", "outside/o.c"]
+       "root/src.c/in.c", "root/d1/Makefile", "root/.c", "root/d1/.h", "root2/x.c", "outside/o.c",
+       "root/x.c++", "root/d1/y.h++", "root/z.ccc", "root/w.hhh", "root/k.F90", "root/up.C", "root/t.cu", "root/m.cpp.txt",
+       "root/v.S", "root/n.f9"]
 LINKS = {"root/lnk_d1": "root/d1", "root/la.c": "root/a.c", "root/lout.c": "outside/o.c", "root/dangling.c": "root/nowhere.c",
          "root/lnk_out": "outside", "root/d1/back": "root"}
 
